@@ -283,6 +283,7 @@ def compare_items(items, max_nodes=None):
             skipped += 1
             continue
         n += 1
+        it['kb_scoped'] = m.get('scoped')   # Scoped.prog_scoped (compile g ...): hypothesis of C11_scoped_program_never_stuck
         names = {r['name']: i for i, r in enumerate(dump['rules'])}
         tr = pb.tr
         rid_name = {rid: name for name, rid in tr.rule_ids.items()}
